@@ -132,6 +132,16 @@ theorem linear_problem_finishes_partial (cfg : Cfg ℝ) (h : Admissible cfg) (en
       ∀ e ∈ events (solverNR cfg env N), e ≠ Ev.stopMin ∧ ∀ inc, e ≠ Ev.solve0 inc ∨ inc = cfg.initialInc :=
   linear_problem_finishes_aux cfg h env hlin h2
 
+/-- ... and therefore reaches (the finish window of) full load: what "a linear problem is solved to full load" amounts to
+for the driver as written (exactly 1 is not guaranteed, `final_not_one_counterexample` is a linear problem). -/
+theorem linear_problem_reaches_full_load_window_partial (cfg : Cfg ℝ) (h : Admissible cfg) (env : Env ℝ)
+    (hlin : ∀ k, env.rmax (2 * k + 1) < cfg.absTOL) (h2 : 2 ≤ cfg.maxNumIter) :
+    ∃ N t c, (solverNR cfg env N).1 = Outcome.finished ∧
+      (reported (solverNR cfg env N)).getLast? = some (t, c) ∧ 1 - 1 / 1000 < t ∧ t ≤ 1 := by
+  obtain ⟨N, hf, _⟩ := linear_problem_finishes_partial cfg h env hlin h2
+  obtain ⟨t, c, hl, hlo, hhi⟩ := finished_last_factor_window cfg h env N hf
+  exact ⟨N, t, c, hf, hl, hlo, hhi⟩
+
 /-! Non-vacuity: the default settings of `Analysis.__init__` are admissible. -/
 example : Admissible (⟨3 / 10, 1 / 1000, 1, 1 / 1000, 1 / 100, 30, true, 20, true, 6, true⟩ : Cfg ℚ) := by
   unfold Admissible; norm_num
